@@ -7,9 +7,46 @@
    Variables are numbers (see the comment above each kernel); an array cell is a[i, j] with the
    FIRST index the image row (the code calls it `col`) and the second the image column (`row`).
    Definitions only. *)
-From Coq Require Import ZArith List.
-From Pandora Require Import Lib.KernelIR.
+From Coq Require Import ZArith QArith List.
+From Pandora Require Import Lib.KernelIR Model.Cbca.
 Import ListNotations.
+
+(* ---- the body of the plane loop of cost_volume_aggregation around the four kernels *)
+
+(* range_col[valid_index]: the columns whose correspondent is inside the right image *)
+Definition valid_cols (nc ncR : Z) (d : Q) : list Z := filter (valid_col ncR d) (zrange 0 nc).
+
+(* step1 = cbca_step_1(cv); step2, sum2 = cbca_step_2(step1, cross_left, cross_right, rc, rcr);
+   step3 = cbca_step_3(step2); step4, sum4 = cbca_step_4(step3, sum2, cross_left, cross_right, rc, rcr) *)
+Definition ir_plane (k1 k2 k3 k4 : kernel) (CV CL CR RC RCR : arr) : option (arr * arr) :=
+  match run_kernel k1 [] [CV] with
+  | Some [S1] =>
+      match run_kernel k2 [] [S1; CL; CR; RC; RCR] with
+      | Some [S2; SM2] =>
+          match run_kernel k3 [] [S2] with
+          | Some [S3] =>
+              match run_kernel k4 [] [S3; SM2; CL; CR; RC; RCR] with
+              | Some [S4; SM4] => Some (S4, SM4)
+              | _ => None
+              end
+          | _ => None
+          end
+      | _ => None
+      end
+  | _ => None
+  end.
+
+(* agg = (cv + 0) * 0 (0, or NaN where the cost is NaN); agg += step4; sum4 += 1; agg /= sum4 *)
+Definition finish_cell (cost : option Q) (v4 vn : val) : option (option Q) :=
+  match v4, vn with
+  | VFlt (Fin a), VFlt (Fin n) =>
+      Some (match cost with
+            | None => None
+            | Some _ => Some (Qred ((0 + a) / (n + 1)))
+            end)
+  | _, _ => None
+  end.
+
 Open Scope nat_scope.
 
 (* cbca_step_1(cv)   numba signature 'f8[:, :](f4[:, :])'
